@@ -563,7 +563,7 @@ GBind(gi) ==
 NextDoc(rst) ==
   /\ sess.docs + 1 < MaxDocs
   /\ Mode # "trace" => Len(stack) = 1 /\ cnt.secs > 0
-  /\ sess' = [docs |-> sess.docs + 1, done |-> History \o (IF rst THEN <<ResetStep>> ELSE <<>>), sum |-> Append(sess.sum, IF Mode = "gen" THEN {f[1] : f \in HeapFlags} \cap {"graph"} ELSE HeapFlags),
+  /\ sess' = [docs |-> sess.docs + 1, done |-> History \o (IF rst THEN <<ResetStep>> ELSE <<>>), sum |-> Append(sess.sum, IF Mode = "gen" THEN {f[1] : f \in HeapFlags} \cap {"graph"} ELSE {f[1] : f \in HeapFlags} \cap {"graph", "axis"}),
               rst |-> rst, on |-> FALSE, items |-> <<>>, steps |-> <<>>,
               cur |-> LoadStepOf(Exp1(EmptyStack), <<>>, EmptyStack, TRUE, sess.docs + 1, rst)]
   /\ stack' = EmptyStack
@@ -641,13 +641,14 @@ NM_zz2 == <<122, 122>>
 OpSetChoices == {<<N_axes, L!Txt(NM_ba)>>, <<N_axes, L!Txt(NM_a)>>, <<N_axes, L!Txt(NM_zz2)>>, <<N_worlds, L!Txt(NM_zz2)>>,
                  <<N_worlds, L!Txt(NM_w)>>, <<N_fg, L!Txt(W_red)>>, <<N_fg, L!Txt(W_abc)>>, <<N_bogus, L!Txt(W_abc)>>}
 \* export runs: operations start on descriptions without options (quick) and work on the first graph
-OpsHere == Len(stack) = 1 /\ (Mode = "gen" => cnt.opts = 0 /\ sess.docs = 0)
+OpsHere == Len(stack) = 1 /\ (Mode \in {"gen", "gent"} => cnt.opts = 0 /\ sess.docs = 0)
 OpSetQuick == {<<N_axes, L!Txt(NM_ba)>>, <<N_axes, L!Txt(NM_zz2)>>, <<N_worlds, L!Txt(NM_zz2)>>, <<N_worlds, L!Txt(NM_w)>>, <<N_fg, L!Txt(W_abc)>>}
 Ops == OpsHere /\ \E gi \in GraphIdx(LiveItems) :
           /\ (Mode = "gen" => gi = MinOf(GraphIdx(LiveItems)))
           /\ ((\E c \in (IF Mode = "gen" THEN OpSetQuick ELSE OpSetChoices) : GSet(gi, c[1], c[2])) \/ GBind(gi))
 \* quick export: a second description follows two-section descriptions, with a reset in between for every other one
 NextDocs == IF Mode = "gen" THEN ~sess.on /\ cnt.secs = 2 /\ NextDoc((cnt.opts + Cardinality(HeapFlags)) % 2 = 1)
+            ELSE IF Mode = "gent" THEN ~sess.on /\ cnt.secs = 2 /\ \E rst \in BOOLEAN : NextDoc(rst)
             ELSE \E rst \in BOOLEAN : NextDoc(rst)
 Next == Build \/ (\E m \in CopyPick : Probe("copy", m)) \/ CLoad
               \/ ((Mode # "gen" \/ Odd) /\ Probe("dump", "")) \/ ((Mode # "gen" \/ ~Odd) /\ Inst)
